@@ -1020,7 +1020,7 @@ func vRandomScenario(rnd *rand.Rand, i int) *vScenario {
 	if !sc.Gated && rnd.IntN(3) == 0 {
 		sc.Faults[strconv.Itoa(1+rnd.IntN(6))] = []string{"broken", "rejected", "stall"}[rnd.IntN(3)]
 	}
-	if os.Getenv("VERIF_CSMODE") == "1" && rnd.IntN(2) == 0 {
+	if os.Getenv("VERIF_CSMODE") != "0" && rnd.IntN(3) == 0 {
 		sc.CS, sc.CSSeed = true, rnd.Uint64()
 	}
 	n := 3 + rnd.IntN(10)
